@@ -43,7 +43,9 @@ def circuit_grad(E, layers, quadratic, kinds=None, nq=2):
     sym.begin(E)
     x, y = sym.sym(E, 'x'), sym.sym(E, 'y')
     n = nq
-    c = G.Ket(*[0] * n)
+    # |+...+>: every computational basis state has an amplitude, so that
+    # diagonal and controlled gates act non-trivially
+    c = G.Ket(*[0] * n) >> Id(0).tensor(*[G.H] * n)
     has_ctrl = False
     has_scalar = False
     for l in range(layers):
